@@ -182,10 +182,11 @@ namespace occa {
                offset >= 0);
 
     const int dtypeSize = modeMemory->dtype_->bytes();
-    const dim_t offset_ = dtypeSize * offset;
-    const dim_t bytes  = dtypeSize * ((count == -1)
-                                      ? (length() - offset)
-                                      : count);
+    const dim_t offset_ = entriesToBytes(offset, dtypeSize);
+    const dim_t bytes  = entriesToBytes((count == -1)
+                                        ? (length() - offset)
+                                        : count,
+                                        dtypeSize);
 
     OCCA_ERROR("Trying to allocate negative elements (" << count << ")",
                bytes >= 0);
@@ -207,8 +208,8 @@ namespace occa {
     assertInitialized();
 
     const int dtypeSize = modeMemory->dtype_->bytes();
-    const dim_t bytes  = dtypeSize * ((count == -1) ? length() : count);
-    const dim_t offset_ = dtypeSize * offset;
+    const dim_t bytes  = entriesToBytes((count == -1) ? length() : count, dtypeSize);
+    const dim_t offset_ = entriesToBytes(offset, dtypeSize);
 
     OCCA_ERROR("Trying to allocate negative bytes (" << bytes << ")",
                bytes >= -1);
@@ -232,9 +233,9 @@ namespace occa {
     src.assertInitialized();
 
     const int dtypeSize = modeMemory->dtype_->bytes();
-    const dim_t bytes  = dtypeSize * ((count == -1) ? length() : count);
-    const dim_t destOffset_ = dtypeSize * destOffset;
-    const dim_t srcOffset_ = src.modeMemory->dtype_->bytes() * srcOffset;
+    const dim_t bytes  = entriesToBytes((count == -1) ? length() : count, dtypeSize);
+    const dim_t destOffset_ = entriesToBytes(destOffset, dtypeSize);
+    const dim_t srcOffset_ = entriesToBytes(srcOffset, src.modeMemory->dtype_->bytes());
 
     OCCA_ERROR("Trying to allocate negative bytes (" << bytes << ")",
                bytes >= -1);
@@ -263,8 +264,8 @@ namespace occa {
     assertInitialized();
 
     const int dtypeSize = modeMemory->dtype_->bytes();
-    const dim_t bytes  = dtypeSize * ((count == -1) ? length() : count);
-    const dim_t offset_ = dtypeSize * offset;
+    const dim_t bytes  = entriesToBytes((count == -1) ? length() : count, dtypeSize);
+    const dim_t offset_ = entriesToBytes(offset, dtypeSize);
 
     OCCA_ERROR("Trying to allocate negative bytes (" << bytes << ")",
                bytes >= -1);
@@ -288,9 +289,9 @@ namespace occa {
     dest.assertInitialized();
 
     const int dtypeSize = modeMemory->dtype_->bytes();
-    const dim_t bytes  = dtypeSize * ((count == -1) ? length() : count);
-    const dim_t destOffset_ = dest.modeMemory->dtype_->bytes() * destOffset;
-    const dim_t srcOffset_ = dtypeSize * srcOffset;
+    const dim_t bytes  = entriesToBytes((count == -1) ? length() : count, dtypeSize);
+    const dim_t destOffset_ = entriesToBytes(destOffset, dest.modeMemory->dtype_->bytes());
+    const dim_t srcOffset_ = entriesToBytes(srcOffset, dtypeSize);
 
     OCCA_ERROR("Trying to allocate negative bytes (" << bytes << ")",
                bytes >= -1);
